@@ -87,19 +87,50 @@ class Ctx:
         lo, hi = trange(ty)
         self.inputs.append((name, ty, v))
         self.assume.append(z3.And(v >= lo, v <= hi))
-        self.ex.assumptions = self.assume + [c for _, c in self.cuts]
+        self.ex.assumptions = self.assume + [c[1] for c in self.cuts]
         return IntV(v, ty)
 
     def require(self, cond):
         """input precondition (documented validity of an argument)"""
         self.assume.append(cond)
-        self.ex.assumptions = self.assume + [c for _, c in self.cuts]
+        self.ex.assumptions = self.assume + [c[1] for c in self.cuts]
 
     def set_tyenv(self, **kw):
         self.ex.tyenv.update(kw)
 
     # -- execution -----------------------------------------------------------------------------
-    def call(self, path, *args, name=None):
+    def call(self, path, *args, name=None, when=None, ghost=False):
+        """when: the call is only made where `when` holds (e.g. on the payload of a Some); its panic edges and its
+        normal-return condition are restricted accordingly, the result is meaningful only under `when`.
+        ghost: a specification-only replay of a pure sub-computation that the function under test performs itself
+        (to name its intermediate terms); its panic edges are duplicates of the real call's and are not recorded, and
+        it does not constrain the normal-return condition."""
+        if ghost:
+            n = len(self.ex.panics)
+            saved = self.state
+            try:
+                v = self.call(path, *args, name=name, when=when)
+            finally:
+                del self.ex.panics[n:]
+                self.state = State(saved.pc, self.state.mem)
+            return v
+        if when is not None:
+            saved = self.state
+            self.state = State(z3.And(saved.pc, when), saved.mem)
+            try:
+                v = self.call(path, *args, name=name)
+            finally:
+                after = self.state
+                self.state = State(z3.Or(z3.And(saved.pc, z3.Not(when)), after.pc), after.mem)
+            return v
+        st0 = State(z3.And(self.state.pc, *self.assume) if self.assume else self.state.pc, dict(self.state.mem))
+        r = self.ex.intrinsic(st0, path, list(args))
+        if r is not NotImplemented:
+            st2, v = r
+            if st2 is None:
+                raise Unsupported(f"{path} never returns normally")
+            self.state = State(st2.pc, st2.mem)
+            return v
         f, env = self.ex.resolve(path, list(args))
         if f is None:
             raise Unsupported(f"entry point {path} not found in MIR")
@@ -140,12 +171,17 @@ class Ctx:
         """use a contract (proved by another obligation) in place of a callee's body -- assume/guarantee composition"""
         self.ex.summaries[short_name] = fn
 
+    def cast(self, v, ty):
+        """the executor's own IntToInt cast (same term the code's cast produces under the current path condition)"""
+        self.ex.cur_state = State(z3.And(self.state.pc, *self.assume) if self.assume else self.state.pc, self.state.mem)
+        return self.ex.cast(v, ty, "IntToInt")
+
     def ref(self, v):
         """pass a value by reference"""
         return symex.ConstRef(v)
 
     # -- solving -------------------------------------------------------------------------------
-    def _solver(self, cfg, tmo, seed):
+    def _solver(self, cfg, tmo, seed, with_pc=True):
         s = z3.Solver()
         if cfg == "old":
             s.set("arith.solver", 2)
@@ -156,23 +192,31 @@ class Ctx:
             s.add(a)
         for a in self.ex.side:
             s.add(a)
-        for _, c in self.cuts:
-            s.add(c)
-        s.add(self.state.pc)  # every claim / cut is about normal return of the calls made so far
+        for c in self.cuts:
+            if with_pc or len(c) < 3:
+                s.add(c[1])
+            else:
+                # outside normal return (panic edges): a cut is only known where its own premises hold
+                s.add(z3.Implies(c[2], c[1]))
+        if with_pc:
+            s.add(self.state.pc)  # claims / cuts are about normal return of the calls made so far
         return s
 
-    def check_sat(self, extra, name, budget=None):
+    def check_sat(self, extra, name, budget=None, with_pc=True):
         """returns ('unsat'|'sat'|'unknown', model). Portfolio: both arithmetic back ends of z3, escalating timeouts
         (solver time on these div/mod-heavy queries varies by orders of magnitude between configurations)."""
         last = None
         T = self.per_query_timeout
-        plan = [("old", 4, 0), ("new", 4, 0), ("old", 20, 7), ("new", 20, 7), ("old", 90, 13), ("new", 90, 13)]
+        # many short attempts with different seeds first: easy queries are decided in well under a second by *some*
+        # configuration, while a single unlucky (back end, seed) pair can burn its whole budget
+        plan = [("old", 2, 0), ("new", 2, 0), ("old", 2, 7), ("new", 2, 11), ("old", 6, 13), ("new", 6, 17),
+                ("new", 20, 3), ("old", 20, 5), ("new", 90, 23), ("old", 90, 29)]
         if T > 90:
-            plan += [("old", T, 0), ("new", T, 0)]
+            plan += [("new", T, 0), ("old", T, 0)]
         if budget:
-            plan = [("old", 4, 0), ("new", 4, 0), ("new", budget, 5)]
+            plan = [("old", 2, 0), ("new", 2, 0), ("old", 4, 7), ("new", budget, 5)]
         for cfg, tmo, seed in plan:
-            s = self._solver(cfg, tmo, seed)
+            s = self._solver(cfg, tmo, seed, with_pc)
             for e in extra:
                 s.add(e)
             t0 = time.time()
@@ -216,8 +260,8 @@ class Ctx:
     def cut(self, name, formula, splits=None):
         """intermediate lemma: proved under the same premises, then assumed (sound: it is valid whenever the function returns)"""
         self._prove("cut:" + name, formula, splits)
-        self.cuts.append((name, formula))
-        self.ex.assumptions = self.assume + [c for _, c in self.cuts]
+        self.cuts.append((name, formula, self.state.pc))
+        self.ex.assumptions = self.assume + [c[1] for c in self.cuts]
 
     def lemma(self, name, vars_, formula):
         """pure arithmetic lemma over the free variables vars_ (no program terms): validity is proved by z3 (negation
@@ -247,7 +291,7 @@ class Ctx:
         vars_, formula = self.lemmas[name]
         inst = z3.substitute(formula, *[(v, t) for v, t in zip(vars_, terms)])
         self.cuts.append((f"{name}@inst", inst))
-        self.ex.assumptions = self.assume + [c for _, c in self.cuts]
+        self.ex.assumptions = self.assume + [c[1] for c in self.cuts]
 
     def claim(self, name, formula, splits=None, kf=None):
         """kf: (finding id, predicate over inputs) -- when the finding is listed as known, the claim is proved outside the
@@ -271,14 +315,14 @@ class Ctx:
             extra = [cond]
             if kf and kf[0] in self.known:
                 extra.append(z3.Not(kf[1]))
-            r, m = self.check_sat(extra, f"{name}/{i}")
+            r, m = self.check_sat(extra, f"{name}/{i}", with_pc=False)
             if r == "sat":
                 raise Violation(f"{name}: reachable panic `{msg}` in {fn}", m)
             if r != "unsat":
                 raise Inconclusive(f"{name}: unknown on panic edge {i} `{msg}`")
         if kf and kf[0] in self.known:
             for i, (cond, msg, fn) in enumerate(self.ex.panics):
-                r, m = self.check_sat([cond, kf[1]], f"{name}/witness{i}")
+                r, m = self.check_sat([cond, kf[1]], f"{name}/witness{i}", with_pc=False)
                 if r == "sat":
                     k = self.known[kf[0]]
                     self.kf_lines.append(f"KNOWN-FINDING: property={k['property']} {kf[0]} {k['entry_point']}: {k['fails_on']}")
